@@ -35,6 +35,12 @@ import (
 // ConnDiffFromResourceInfos returns the connectivity diffs from two lists of resource.Info objects,
 // representing two versions of manifest sets to compare
 func (da *DiffAnalyzer) ConnDiffFromResourceInfos(infos1, infos2 []*resource.Info) (ConnectivityDiff, error) {
+	// the errors of an earlier analysis made with this analyzer do not belong to this one (they would stop it)
+	da.errors = nil
+	return da.connDiffFromResourceInfos(infos1, infos2)
+}
+
+func (da *DiffAnalyzer) connDiffFromResourceInfos(infos1, infos2 []*resource.Info) (ConnectivityDiff, error) {
 	// connectivity analysis for first dir
 	// TODO: should add input arg dirPath to this API func? so that log msgs can specify the dir, rather then just "ref1"/"ref2"
 	conns1, workloads1, shouldStop, cDiff, errVal := da.getConnlistAnalysis(infos1, true, "")
@@ -55,6 +61,8 @@ func (da *DiffAnalyzer) ConnDiffFromResourceInfos(infos1, infos2 []*resource.Inf
 // ConnDiffFromDirPaths returns the connectivity diffs from two dir paths containing k8s resources,
 // representing two versions of manifest sets to compare
 func (da *DiffAnalyzer) ConnDiffFromDirPaths(dirPath1, dirPath2 string) (ConnectivityDiff, error) {
+	// the errors of an earlier analysis made with this analyzer do not belong to this one (they would stop it)
+	da.errors = nil
 	// attempt to read manifests from both dirs
 	infos1, errs1 := fsscanner.GetResourceInfosFromDirPath([]string{dirPath1}, true, da.stopOnError)
 	infos2, errs2 := fsscanner.GetResourceInfosFromDirPath([]string{dirPath2}, true, da.stopOnError)
@@ -84,7 +92,7 @@ func (da *DiffAnalyzer) ConnDiffFromDirPaths(dirPath1, dirPath2 string) (Connect
 			// add the error from builder to accumulated errors
 		}
 	}
-	return da.ConnDiffFromResourceInfos(infos1, infos2)
+	return da.connDiffFromResourceInfos(infos1, infos2)
 }
 
 func doBothInputDirsExist(dirPath1, dirPath2 string) bool {
